@@ -376,6 +376,18 @@ func (k *checker) slices() {
 			k.law("Intersection", f.n, !f.a.panicked && eqInts(f.a.seq, want), "Intersection(%v) = %v, want %v", lists, f.a, want)
 		}
 	}
+	// the variadic functions with ONE operand: the intersection / union / difference of a single list is
+	// that list as a set (order of the list), and the twins agree
+	g1, i1 := both("Intersection", false, func() []int { return fpgo.Intersection(A) }, func() []int { return fromI(fpgo.IntersectionForInterface(toI(A))) })
+	if nonEmpty(A) {
+		for _, f := range fams(g1, i1) {
+			k.law("Intersection", f.n, !f.a.panicked && eqInts(f.a.seq, refDistinct(A)), "Intersection(%v) with a single operand = %v, want the set %v", A, f.a, refDistinct(A))
+		}
+		for name, fn := range map[string]func() []int{"Union": func() []int { return fpgo.Union(A) }, "Difference": func() []int { return fpgo.Difference(A) }} {
+			r := callSeq(fn)
+			k.law(name, "generic", !r.panicked && !hasDup(r.seq) && eqInts(sorted(r.seq), sortedKeys(setOf(A))), "%s(%v) with a single operand = %v, want the set of its elements", name, A, r)
+		}
+	}
 	// Difference (generic only): first set without the elements of the others, as a set, order of the first
 	gd := callSeq(func() []int { return fpgo.Difference(lists...) })
 	if allNonEmpty {
